@@ -819,6 +819,11 @@ class Interp:
                 if k.arg in kwargs:
                     raise TypeError(f"{_fname(f)}() got multiple values for keyword argument {k.arg!r}")
                 kwargs[k.arg] = self.eval(k.value, env, mod)
+        if isinstance(f, types.BuiltinMethodType) and isinstance(getattr(f, "__self__", None), (list, dict, set)):
+            from .frame import MUTATORS
+
+            if f.__name__ in MUTATORS:
+                self.store_hook(f.__self__, "." + f.__name__ + "()", None)
         ov = NATIVE_OVERRIDES.get(f) if isinstance(f, (types.BuiltinFunctionType, types.FunctionType)) else None
         if ov is not None and any(isinstance(a, (T, SymArray)) for a in args):
             return ov(*args, **kwargs)
